@@ -656,6 +656,8 @@ def run(ctx):
             bump(dist["pair_kinds"], "big")
 
     mon_bad = []
+    rule_hist = {}
+    cnt_del = [0]
     known_hist = {}
     cnt = {"k1": 0, "fit_bad": 0, "moves": 0, "known": 0}
     hit = {"wf_diff": 0, "moves_ok": 0, "moves_fit": 0, "moves_same_len": 0, "priors_ordered": 0}
@@ -694,6 +696,34 @@ def run(ctx):
             cnt["moves"] += 1 if moves else 0
             k1 = k1_class(c["old_b"], c["new_b"], segs, [tuple(m) for m in moves])
             cnt["k1"] += k1
+            # which Insert rule of transform_attributions each Insert segment of the real script exercises
+            np3, prev, ins_i = 0, None, 0
+            for sg in segs if (not segs or isinstance(segs[0], list)) else []:
+                o3, d3 = sg
+                if o3 == 2:
+                    txt3 = bytes(d3).decode(errors="replace")
+                    ws3 = len(txt3) > 0 and all(ord(ch) in WS for ch in txt3)
+                    if any(m[1] == ins_i for m in moves):
+                        rule = "move-gaps"
+                    elif 10 in d3:
+                        rule = "newline"
+                    elif any(a3 < np3 + len(d3) and b3 > np3 for (a3, b3) in f.get("subst", [])):
+                        rule = "substantive"
+                    elif prev is not None and prev[0] == 1 and ws3 and \
+                            all(ord(ch) in WS for ch in bytes(prev[1]).decode(errors="replace")):
+                        rule = "formatting-pair"
+                    else:
+                        rule = "inherit-last-or-neighbour"
+                    bump(rule_hist, rule)
+                    ins_i += 1
+                elif o3 == 1:
+                    bump(rule_hist, "delete:" + ("moved" if any(m[0] == cnt_del[0] for m in moves) else
+                                                 ("whitespace" if all(ord(ch) in WS for ch in bytes(d3).decode(errors="replace")) else "marker")))
+                    cnt_del[0] += 1
+                if o3 != 1:
+                    np3 += len(d3)
+                prev = sg
+            cnt_del[0] = 0
             # reformat oracle
             if c["kind"].startswith("reformat") and f.get("lines") and f["lines"][0] != "panic":
                 got = lines_per_line(dec_lattrs(f["lines"][0]))
@@ -970,6 +1000,7 @@ def run(ctx):
             "synthetic_panics_in_impl": n_tpanic,
             "oracle_failures_in_known_classes": n_known,
             "oracle_failures_by_class": known_hist,
+            "transform_rules_exercised": rule_hist,
             "correspondence_mismatches": len(mism),
         },
     }
